@@ -109,9 +109,9 @@ func isConstLike(v ssa.Value) bool {
 	case *ssa.Const:
 		return true
 	case *ssa.Call:
-		n := core.CalleeName(&x.Call)
+		n := core.CalleeName(core.NormCall(&x.Call))
 		if n == "math/big.NewInt" {
-			_, ok := core.Unwrap(x.Call.Args[0]).(*ssa.Const)
+			_, ok := core.Unwrap(core.NormCall(&x.Call).Args[0]).(*ssa.Const)
 			return ok
 		}
 	}
@@ -186,8 +186,8 @@ func (r *c12Roles) of(v ssa.Value, depth int) (string, ssa.Value) {
 		}
 	case *ssa.Call:
 		// X minus / plus an adjustment (the supply after the commission was deducted) is still X
-		if n := core.CalleeName(&x.Call); (n == "(*math/big.Int).Sub" || n == "(*math/big.Int).Add") && len(x.Call.Args) == 3 {
-			return r.of(x.Call.Args[1], depth+1)
+		if n := core.CalleeName(core.NormCall(&x.Call)); (n == "(*math/big.Int).Sub" || n == "(*math/big.Int).Add") && len(core.NormCall(&x.Call).Args) == 3 {
+			return r.of(core.NormCall(&x.Call).Args[1], depth+1)
 		}
 		if x.Call.IsInvoke() {
 			role := ""
@@ -196,8 +196,8 @@ func (r *c12Roles) of(v ssa.Value, depth int) (string, ssa.Value) {
 			}
 			return cleanRole(role), x.Call.Value
 		}
-		if sc := x.Call.StaticCallee(); sc != nil && r.c.InRepo(sc) && sc.Signature.Recv() != nil && len(x.Call.Args) > 0 {
-			return cleanRole(r.ofResult(sc, 0, depth+1)), x.Call.Args[0]
+		if sc := x.Call.StaticCallee(); sc != nil && r.c.InRepo(sc) && sc.Signature.Recv() != nil && len(core.NormCall(&x.Call).Args) > 0 {
+			return cleanRole(r.ofResult(sc, 0, depth+1)), core.NormCall(&x.Call).Args[0]
 		}
 	case *ssa.Parameter:
 		fn := x.Parent()
@@ -716,7 +716,7 @@ func pathBlocks(c *core.Ctx, p core.CFGPath) string {
 // roleHook names coin accessors: X(coin) for a value with role X of object coin.
 func roleHook(roles *c12Roles, al *algebra) func(v ssa.Value) (ratf, bool) {
 	return func(v ssa.Value) (ratf, bool) {
-		if call, ok := v.(*ssa.Call); ok && strings.Contains(core.CalleeName(&call.Call), "math/big.") {
+		if call, ok := v.(*ssa.Call); ok && strings.Contains(core.CalleeName(core.NormCall(&call.Call)), "math/big.") {
 			return ratf{}, false // arithmetic goes through the transfer functions
 		}
 		ro, base := roles.of(v, 0)
@@ -757,7 +757,7 @@ func nilDecision(ev *pathEval, ed core.Edge) (*ssa.Function, []ssa.Value, bool) 
 		return nil, nil, false
 	}
 	nilTaken := (b.Op == token.EQL) == ed.Taken
-	return h, call.Call.Args, nilTaken
+	return h, core.NormCall(&call.Call).Args, nilTaken
 }
 
 type domSummary struct {
@@ -885,15 +885,15 @@ func globalInitNonNeg(c *core.Ctx, path string) bool {
 							if !ok {
 								break
 							}
-							n := core.CalleeName(&call.Call)
+							n := core.CalleeName(core.NormCall(&call.Call))
 							if n == "math/big.NewInt" {
-								if k, ok := core.ConstInt(call.Call.Args[0]); ok && k >= 0 {
+								if k, ok := core.ConstInt(core.NormCall(&call.Call).Args[0]); ok && k >= 0 {
 									good = true
 								}
 								break
 							}
-							if strings.HasSuffix(n, "helpers.BipToPip") && len(call.Call.Args) == 1 {
-								v = core.Unwrap(call.Call.Args[0])
+							if strings.HasSuffix(n, "helpers.BipToPip") && len(core.NormCall(&call.Call).Args) == 1 {
+								v = core.Unwrap(core.NormCall(&call.Call).Args[0])
 								continue
 							}
 							break
@@ -945,13 +945,13 @@ func checkFloatPrecision(c *core.Ctx, rule string) {
 							walk(e, d+1)
 						}
 					case *ssa.Call:
-						name := core.CalleeName(&x.Call)
+						name := core.CalleeName(core.NormCall(&x.Call))
 						switch {
 						case name == "math/big.NewFloat":
 							from = c.PosStr(x.Pos())
-						case strings.HasPrefix(name, "(*math/big.Float).") && name != "(*math/big.Float).SetPrec" && name != "(*math/big.Float).Copy" && len(x.Call.Args) > 0:
+						case strings.HasPrefix(name, "(*math/big.Float).") && name != "(*math/big.Float).SetPrec" && name != "(*math/big.Float).Copy" && len(core.NormCall(&x.Call).Args) > 0:
 							// methods return their receiver (Copy takes the source's precision)
-							walk(x.Call.Args[0], d+1)
+							walk(core.NormCall(&x.Call).Args[0], d+1)
 						}
 					}
 				}
